@@ -2,11 +2,29 @@
 from checks import lintlib as L
 
 MODULES = ["TLVerif.Props.C30"]
-THEOREMS = ["TLVerif.Props.C30." + t for t in []]
+THEOREMS = ["TLVerif.Props.C30." + t for t in [
+    "rejects_removed_constructor",
+    "rejects_removed_function",
+    "rejects_missing_constructor",
+    "rejects_fewer_fields_or_targs",
+    "rejects_fewer_fields_function",
+    "compare_accepts_only_same_nodes",
+    "rejects_changed_field_type_partial",
+    "rejects_changed_mask",
+    "rejects_appended_unmasked_field",
+    "rejects_reused_mask_bit",
+    "rejects_bare_type_to_union_partial",
+    "union_statement_fails",
+    "union_in_repeat_accepted",
+    "bare_change_statement_fails",
+    "compare_ignores_bare",
+    "repeat_changes_accepted",
+    "fewer_args_panics"]]
 
 
 def run(c):
-    c.lean(MODULES, THEOREMS)
+    c.lean(MODULES, THEOREMS, sources=["TLVerif.Lint.Ast", "TLVerif.Lint.Core", "TLVerif.Lint.Spec", "TLVerif.Lint.CoreLemmas",
+                                       "TLVerif.Lint.Examples", "TLVerif.Lint.Driver"])
     model = c.model_exe()
     impl = c.harness("hlint")
     c.trusted += ["go/hlint harness: token -> TL text renderer (self-checked: the real parser's AST must dump back to the same tokens)",
